@@ -91,6 +91,51 @@ def ctuple(*xs) -> str:
 
 
 # --------------------------------------------------------------------------- Coq build
+
+# ------------------------------------------------------------------ internal attributes of the code under test
+# The harness observes a few objects the tool keeps in private attributes.  Private names are not part of
+# what the properties talk about: a rename must not raise an alarm.  [priv] finds such an attribute by its
+# usual name(s) and otherwise by WHAT it is (a predicate on the value), [set_priv] replaces it.
+_MISSING = object()
+
+
+def priv_name(obj, names, pred=None):
+    for n in names:
+        if n in getattr(obj, "__dict__", {}) or hasattr(obj, n):
+            return n
+    if pred is not None:
+        hits = []
+        for n, v in list(getattr(obj, "__dict__", {}).items()):
+            try:
+                if pred(n, v):
+                    hits.append(n)
+            except Exception:
+                pass
+        if len(hits) == 1:
+            return hits[0]
+    return None
+
+
+def priv(obj, names, pred=None, default=_MISSING):
+    n = priv_name(obj, names, pred)
+    if n is None:
+        if default is _MISSING:
+            raise AttributeError(f"{type(obj).__name__}: none of {names} and no attribute matching the fallback")
+        return default
+    return getattr(obj, n)
+
+
+def set_priv(obj, names, value, pred=None) -> bool:
+    n = priv_name(obj, names, pred)
+    if n is None:
+        return False
+    setattr(obj, n, value)
+    return True
+
+
+def of_type(*types):
+    return lambda n, v: isinstance(v, types)
+
 def sh(cmd, cwd=None, timeout=600, env=None):
     try:
         p = subprocess.run(cmd, cwd=cwd, timeout=timeout, env=env, stdout=subprocess.PIPE,
